@@ -395,8 +395,12 @@ func TestZZVerifC07(t *testing.T) {
 		if h%4 == 3 {
 			prelude = gen.GatewayPrelude()
 		}
+		if h%4 == 1 {
+			prelude = gen.GatewayOrderScenario(hr)
+		}
 		situations := map[string]bool{}
 		reported := map[string]bool{}
+		gwEdgeSeen = map[string]bool{}
 		for i := 0; i < ln; i++ {
 			idx += 1 + uint64(hr.Intn(2))
 			var c gen.Cmd
@@ -404,6 +408,11 @@ func TestZZVerifC07(t *testing.T) {
 				c = prelude[i]
 			} else {
 				c = g.Next(r.State(), idx)
+				// the virtual-IP feature flags are one-way markers the leader sets once every server
+				// supports the feature; removing them again is not a client write history
+				for strings.HasPrefix(c.Class, "sysmeta:delete:virtual-ips") {
+					c = g.Next(r.State(), idx)
+				}
 			}
 			before := load(r.State())
 			log = append(log, fmt.Sprintf("@%d %s", idx, trunc(c.Desc, 400)))
